@@ -1501,3 +1501,31 @@ Proof.
   - vm_compute. reflexivity.
   - vm_compute. reflexivity.
 Qed.
+
+(* a second refutation, outside the scope of Part 2 (the storage changes a reference): two metric
+   texts (1 and 2) carry the same label set 5; both are scraped; the storage forgets the series;
+   the next scrape exposes text 1 only, with an explicit timestamp (tracking of timestamped series
+   on).  updateRef re-keys the staleness tracking of text 1's entry only if the tracked entry IS
+   that entry — here seriesPrev holds text 2's entry under the old reference, so label set 5 gets a
+   staleness marker at the scrape time although it is exposed and stored in this very scrape. *)
+Definition has_sample (bs : list batch) (l : Z) : bool :=
+  existsb (fun b => b_commit b &&
+                    existsb (fun x => negb (is_stale (a_val x)) && (a_lset x =? l) && negb (a_rout x =? 0))
+                            (b_apps b)) bs.
+Definition al_cfg : cfg := mkCfg true true 0 false 10 0 1000000.
+Definition al_mut (m : Z) : mres := MKeep 5.
+Definition al_h : list step := [mkStep 1000 [] (OBody [mkE 1 None 5; mkE 2 None 6] false 8)].
+Definition al_sp : step := mkStep 2000 [5] (OBody [mkE 1 (Some 1900) 7] false 8).
+
+Lemma alias_ref_change_marker_refuted :
+  exists c mut rep h sp l,
+    ~ step_failed c mut (state_after c mut rep h) sp /\
+    has_sample (snd (do_step c mut rep (state_after c mut rep h) sp)) l = true /\
+    has_marker (snd (do_step c mut rep (state_after c mut rep h) sp)) l = true.
+Proof.
+  exists al_cfg, al_mut, rf_rep, al_h, al_sp, 5.
+  split; [|split].
+  - unfold step_failed. cbn [st_out al_sp]. intros [_ H]. vm_compute in H. discriminate.
+  - vm_compute. reflexivity.
+  - vm_compute. reflexivity.
+Qed.
